@@ -306,7 +306,32 @@ pub fn gen_c10(tier: &str, seed: u64, emit: &mut dyn FnMut(String)) {
         }
         w.probes(&mut rng);
         emit(w.finish(0, &mut rng));
+        if i % 25 == 3 { gen_c10_shared(&mut rng, emit); }
     }
+}
+
+/// C10 extra: two programs whose maps share ONE program-map PID and carry the same version_number, repeated alternately
+/// (the second map is a repetition as far as the PID's remembered version goes): nothing may be requested after the first
+fn gen_c10_shared(rng: &mut Rng, emit: &mut dyn FnMut(String)) {
+    let pids = pick_pids(rng, 6);
+    let (p, a, b) = (pids[0], pids[1], pids[2]);
+    let ver = rng.below(32) as u8;
+    let pat = section(0, 1, rng.below(32) as u8, true, &pat_body(&[(1, p), (2, p)], rng));
+    let pmt_a = section(2, 1, ver, true, &pmt_body(a, &[], &[(0x1b, a, vec![])], rng));
+    let pmt_b = section(2, 2, ver, true, &pmt_body(b, &[], &[(0x1b, b, vec![])], rng));
+    let mut m = Mux::new(); let mut notes: Vec<String> = vec![];
+    let mut send = |m: &mut Mux, notes: &mut Vec<String>, pid: u16, s: &Vec<u8>, kind: &str, v: u8, desc: String, rng: &mut Rng| {
+        let first = m.pkts.len(); m.psi(pid, s, 0, 0, rng); notes.push(format!("T|{}|{}|{}|{}|{}|{}", pid, first, m.pkts.len() - 1, kind, v, desc)); };
+    send(&mut m, &mut notes, 0, &pat, "new", (pat[5] >> 1) & 31, format!("1:{},2:{}", p, p), rng);
+    send(&mut m, &mut notes, p, &pmt_a, "new", ver, format!("1/27:{}", a), rng);
+    for _ in 0..rng.range(2, 8) {
+        let (s, d) = if rng.chance(1, 2) { (&pmt_a, format!("1/27:{}", a)) } else { (&pmt_b, format!("2/27:{}", b)) };
+        send(&mut m, &mut notes, p, s, "rep", ver, d, rng);
+        if rng.chance(1, 2) { let pl = rng.bytes(184); m.data_packet(a, false, &pl, rng); }
+    }
+    let mut line = dmx_case(0, "", &[m.bytes()]);
+    line.push_str(&format!(" #H={}", notes.join(";")));
+    emit(line);
 }
 
 /// C11: a damaged transmission, then intact ones with the same and with a bumped version
